@@ -71,7 +71,7 @@ class World:
         self.key = (seed, stream, i)
         rng = C1.case_rng(seed, stream, i, 'world5')
         plan = plan or {}
-        self.d0 = C1.make_data(rng, plan.get('ndim'))
+        self.d0 = plan['make_d0']() if 'make_d0' in plan else C1.make_data(rng, plan.get('ndim'))
         d0 = self.d0
         same = plan.get('same_shape', rng.random() < 0.5)
         shape1 = d0.shape if same else (rng.randint(3, 6),)
@@ -500,6 +500,7 @@ def run_history(R, case, ctab, check_fresh=True):
     fresh_tab = {}
     model_ops = []
     pending_setattr = {}        # id(leaf obj) -> True : assigned since the caches were last dropped
+    stop_model = [False]
     last_results = {}
 
     def wire5(sp, ob):
@@ -528,6 +529,15 @@ def run_history(R, case, ctab, check_fresh=True):
             if o[0] == 'ok' and (not isinstance(o[1], np.ndarray) or o[1].dtype != bool):
                 o = ('err', 'NotAMask')
             fresh_tab[key] = o
+            if o[0] == 'ok':
+                try:
+                    want = C1.view_shape_of(FW.datas[di], v)
+                except Exception:
+                    want = None
+                if o[1].shape != want:
+                    # a part whose mask has not the shape of the data (a state built for the shape the dataset had before
+                    # update_values_from_data): numpy broadcasting decides what happens; the model stops here
+                    stop_model[0] = True
 
     def fresh_for(t, op):
         """evaluate request op on a fresh world at time t; also record the fresh leaf results the model needs"""
@@ -603,8 +613,9 @@ def run_history(R, case, ctab, check_fresh=True):
                     fired = listener.results[-1] if (listener and listener.results) else []
                     for (lo, lreq), lop in zip(fired, lreqs):
                         fo, FW, fobj = fresh_for(t + 1, lop)
-                        if lreq is not None:
+                        if lreq is not None and not stop_model[0]:
                             record_fresh(FW, fobj, lreq)
+                        if lreq is not None and not stop_model[0]:
                             lmodel.append((0, [lreq[2], lreq[3], 1 if lreq[4] else 0, lreq[5], wire5(lreq[0], lreq[1])]))
                             classify(t, ('listener',) + lop, lo, fo, lreq)
                             res['impl'].append(lo)
@@ -612,23 +623,27 @@ def run_history(R, case, ctab, check_fresh=True):
                             res['ismask'].append(True)
                         else:
                             classify(t, ('listener',) + lop, lo, fo, lreq)
-                    model_ops.append((m[1], [(0, m[2]), (0, m[3]), (0, lmodel)]))
+                    if not stop_model[0]:
+                        model_ops.append((m[1], [(0, m[2]), (0, m[3]), (0, lmodel)]))
                 elif m[0] == 'bump':
                     for s in m[2]:
                         pver[s] = pver.get(s, 0) + 1
-                    model_ops.append((m[1], [(0, m[2])]))
+                    if not stop_model[0]:
+                        model_ops.append((m[1], [(0, m[2])]))
                 elif m[0] == 'link':
                     lver[0] += 1
-                    model_ops.append((m[1], []))
-                else:
+                    if not stop_model[0]:
+                        model_ops.append((m[1], []))
+                elif not stop_model[0]:
                     model_ops.append((m[1], []))
             continue
         # ---- a request
         live, req = do_request(W, op)
         fo, FW, fobj = fresh_for(t, op)
         classify(t, op, live, fo, req)
-        if req is not None:
+        if req is not None and not stop_model[0]:
             record_fresh(FW, fobj, req)
+        if req is not None and not stop_model[0]:
             model_ops.append((1, [(0, [req[2], req[3], 1 if req[4] else 0, req[5], wire5(req[0], req[1])])]))
             res['impl'].append(live)
             res['fresh'].append(fo)
@@ -858,7 +873,17 @@ def exhaustive_plan():
         return [S.InequalitySubsetState(x, 1, operator.gt), S.InequalitySubsetState(x, 3, operator.lt),
                 S.RangeSubsetState(0.5, 2.5, y), S.RoiSubsetState(x, y, RO.RectangularROI(-0.5, 2.5, -0.5, 2.5)),
                 S.InequalitySubsetState(d1.id['u'], 1, operator.ge)]
-    return {'ndim': 1, 'same_shape': True, 'leaves': leaves,
+    def make_d0():
+        from glue.core import Data
+        from glue.core.component import CategoricalComponent
+        d = Data(label='d')
+        d.add_component(np.array([-1.0, 0.0, 1.5, 2.0, 2.5, 3.5, 4.0, 6.0]), 'x')
+        d.add_component(np.array([0.0, 1.0, 2.0, 3.0, 0.0, 1.0, 2.0, 3.0]), 'y')
+        d.add_component(np.array([0.0, 1.0, 2.0, 3.0, 4.0, 0.0, 1.0, 2.0]), 'k')
+        d.add_component(CategoricalComponent(np.array(list('abcaabca'))), 'c')
+        d['z'] = d.id['x'] + d.id['y']
+        return d
+    return {'ndim': 1, 'same_shape': True, 'leaves': leaves, 'make_d0': make_d0,
             'specs': [('and', ('leaf', 0), ('leaf', 1)), ('not', ('leaf', 2)), ('multi', [('leaf', 3), ('leaf', 4)])],
             'attached': [True, False, True]}
 
